@@ -1,5 +1,5 @@
 (* Test-case dispatch for model R (run-time model). Opcodes 100-199. *)
-From AJ Require Import Common.Util Extract.Codec Run.RModel Run.RMon Run.RProps1 Run.RProps2 Run.RProps3 Run.RWin Run.RProps4 Run.RProps5 Run.RAdm.
+From AJ Require Import Common.Util Extract.Codec Run.RModel Run.RMon Run.RProps1 Run.RProps2 Run.RProps3 Run.RWin Run.RProps4 Run.RProps5 Run.RAdm Run.RSchedDef.
 
 Definition rd_optN : reader (option N) := rd_opt rd_N.
 
@@ -92,5 +92,12 @@ Definition run_rcase (op : N) : reader (list N) :=
       c <- rd_cfg ;;
       ret (en_bool (admissible c) ++
            flat_map (fun n => [N.of_nat n; if never_ends c n then 1%N else 0%N]) (all_ids c))
+  | 104%N => (* closed-form schedule of a plain tree: plain?, solver's own check, S table, E table *)
+      c <- rd_cfg ;;
+      let '(lS, lE) := solve c in
+      ret (en_bool (wf c) ++ en_bool (plain c) ++ en_bool (is_scheduleb c lS lE) ++ lS ++ lE)
+  | 105%N => (* is c' the flattened graph of c under the renaming table f *)
+      c <- rd_cfg ;; c' <- rd_cfg ;; f <- rd_nats ;;
+      ret (en_bool (wf c) ++ en_bool (wf c') ++ en_bool (flat_ofb c c' f))
   | _ => fun _ => None
   end.
